@@ -167,7 +167,7 @@ func tagLetters(doc JV) string {
 }
 
 var damageKeys = []string{"stream", "labels", "values", "entries", "ts", "timestamp", "line", "value", "streams", "x",
-	"ddtags", "ddsource", "message", "service", "hostname", "source_type"}
+	"ddtags", "ddsource", "message", "service", "hostname", "source_type", "series", "metric", "resources", "points", "name"}
 var damageTs = []string{"12a", "-5", "2021-01-01", "", "1700000000000000000", "2023-11-14T22:13:20.5Z", "2023-11-14t22:13:20z", "+7", "1e9", "99999999999999999999"}
 
 func junk(r *rand.Rand) JV {
